@@ -636,14 +636,14 @@ M("m122", "C06", "R6.4", SAVI, "        self.key = random.PRNGKey(self.config.ra
 M("m123", "C20", "R20.11", VI, "        new_values = self._unbatch_results(padded_batched_values)\n        return new_values\n",
   "        new_values = self._unbatch_results(padded_batched_values)\n        return new_values.astype(values.dtype)\n",
   "sweep result cast to the dtype of the incoming estimates (positive example of the zero-count rule)")
-M("m124", "C20", "R20.11", RVI, "        self.gain = 0.0\n", "        self.gain = jnp.zeros((), dtype=jnp.float32)\n", "RVI gain held in float32")
-M("m125", "C09", "R9.6", RVI, "        self.gain = 0.0\n", "        self.gain = 0\n",
+M("m124", "C20", "R20.11", RVI, "        self.gain = float(self.values[-1])\n", "        self.gain = jnp.zeros((), dtype=jnp.float32)\n", "RVI gain held in float32")
+M("m125", "C09", "R9.6", RVI, "        self.gain = float(self.values[-1])\n", "        self.gain = 0\n",
   "gain template is an int: Orbax restores the saved float gain truncated (seeded C09c)")
-M("m126", "C10", "R10.7", RVI, "        self.gain = 0.0\n", "        self.gain = 0\n", "same, filed under C10")
+M("m126", "C10", "R10.7", RVI, "        self.gain = float(self.values[-1])\n", "        self.gain = 0\n", "same, filed under C10")
 M("m127", "C09", "R9.6", PVI, "self.value_history = np.zeros((self.period + 1, self.problem.n_states))",
   "self.value_history = np.zeros((self.period + 1, self.problem.n_states), dtype=np.float32)",
   "history template float32: restored history loses precision")
-B("b41", ["C09", "C10", "C04"], RVI, "        self.gain = 0.0\n", "        self.gain = float(0)\n", "float(...) initialiser is still a float template")
+B("b41", ["C09", "C10", "C04"], RVI, "        self.gain = float(self.values[-1])\n", "        self.gain = float(self.values[-1].item())\n", "initial gain through .item()")
 B("b42", ["C01", "C08"], VI, "        return jnp.max(delta) - jnp.min(delta)", "        return jnp.ptp(delta)", "span through jnp.ptp (peak-to-peak == max - min)")
 B("b43", ["C01", "C08"], VI, "        return jnp.max(jnp.abs(new_values - old_values))", "        return jnp.abs(jnp.subtract(new_values, old_values)).max()",
   "max-diff with jnp.subtract and the method form of max")
@@ -691,6 +691,9 @@ M2("m136", "C19", "R19.5", [
     (SPACES, "from jaxtyping import Array\n", "from jaxtyping import Array\n\n_SEEN: list = []\n", None),
     (SPACES, "    return space, index_fn", "    _SEEN.append(index_fn)\n    return space, _SEEN[0]", None)],
    "index function taken from a module-level list shared between calls (positive example of the zero-count rule; seeded C19e)")
-M("m137", "C10", "R10.8", RVI, "        self.gain = 0.0\n", "        self.gain = None\n", "gain has no template leaf on a fresh solver: the stored gain is skipped on restore")
+M("m137", "C10", "R10.8", RVI, "        self.gain = float(self.values[-1])\n", "        self.gain = None\n", "gain has no template leaf on a fresh solver: the stored gain is skipped on restore")
 M("m138", "C09", "R9.6", PVI, "        self.value_history = np.zeros((self.period + 1, self.problem.n_states))\n        self.history_index: int = 0\n        self.value_history[0] = np.array(self.values)",
   "        self.value_history = None\n        self.history_index: int = 0", "history allocated lazily: the fresh solver's template has no leaf for it (seeded C09e)")
+M("m139", "C04", "R4.5", RVI, "        self.gain = float(self.values[-1])\n", "        self.gain = 0.0\n",
+  "gain starts at 0 whatever the initial values (the repaired defect D8 re-introduced)")
+B("b50", ["C04", "C09", "C10"], RVI, "        self.gain = float(self.values[-1])\n", "        reference_value = self.values[-1]\n        self.gain = float(reference_value)\n", "initial gain through a temporary")
